@@ -94,6 +94,14 @@ func fpRun(args []string) error {
 			ID   string `json:"id"`
 			Path string `json:"path"`
 		} `json:"files"`
+		// Overlays: a file fingerprinted from an EDITED in-memory source (not what is on disk) while a sibling
+		// file of the same package is fingerprinted from its on-disk source by another goroutine
+		Overlays []struct {
+			EditedPath string `json:"edited_path"`
+			EditedSrc  string `json:"edited_src"`
+			OtherID    string `json:"other_id"`
+			OtherPath  string `json:"other_path"`
+		} `json:"overlays"`
 		Rounds     int    `json:"rounds"`
 		Goroutines int    `json:"goroutines"`
 		Seed       int64  `json:"seed"`
@@ -169,6 +177,46 @@ func fpRun(args []string) error {
 	close(errs)
 	for e := range errs {
 		return e
+	}
+	for _, ov := range plan.Overlays {
+		other, err := os.ReadFile(ov.OtherPath)
+		if err != nil {
+			return err
+		}
+		for trial := 0; trial < 6; trial++ {
+			var wg3 sync.WaitGroup
+			wg3.Add(2)
+			go func() {
+				defer wg3.Done()
+				defer func() { recover() }()
+				diff.FingerprintSourceAdvanced(ov.EditedPath, ov.EditedSrc, ir.DefaultLiteralPolicy, false)
+			}()
+			var dg string
+			var cnt int
+			go func() {
+				defer wg3.Done()
+				defer func() {
+					if r := recover(); r != nil {
+						dg, cnt = "PANIC", -2
+					}
+				}()
+				time.Sleep(time.Duration(1+trial*7) * time.Millisecond) // arrive while the sibling's load is under way
+				res, err := diff.FingerprintSourceAdvanced(ov.OtherPath, string(other), ir.DefaultLiteralPolicy, false)
+				if err != nil {
+					dg, cnt = "ERROR", -3
+					return
+				}
+				lines := make([]string, 0, len(res))
+				for _, r := range res {
+					lines = append(lines, r.FunctionName+"\x00"+r.Fingerprint+"\x00"+r.CanonicalIR)
+				}
+				sort.Strings(lines)
+				h := sha256.Sum256([]byte(strings.Join(lines, "\x01")))
+				dg, cnt = hex.EncodeToString(h[:10]), len(res)
+			}()
+			wg3.Wait()
+			emit("default", ov.OtherID, fmt.Sprintf("while a sibling file is fingerprinted from an edited source #%d", trial), dg, cnt)
+		}
 	}
 	// watchdog for the phase below (its calls cannot be wrapped one by one): no progress for callDeadline
 	// is recorded as NO-RESULT for the file being worked on, then the process stops
